@@ -43,8 +43,17 @@ Project(t) == SelectSeq(t, LAMBDA x : ~x.el)
 \* (grammars with lexer.Token fields print raw token indices, which re-spacing shifts: for those only the relation on the
 \* real outcomes with tokens compared by type and text is checked, see props/parser.py)
 HasIndexFields(g) == \E i \in 1..Len(g.prods) : \E j \in 1..Len(g.prods[i].fields) : g.prods[i].fields[j].kind \in {"token", "tokens", "pos"}
+\* the antecedent of C10: the grammar never names an elided token type (the core lexer elides WS and Comment)
+ElidedTypes == {"WS", "Comment"}
+RECURSIVE NodeNamesElided(_)
+NodeNamesElided(n) ==
+  CASE n.op \in {"lit", "ref"} -> n.t \in ElidedTypes
+    [] n.op \in {"seq", "alt"} -> \E i \in 1..Len(n.kids) : NodeNamesElided(n.kids[i])
+    [] n.op \in {"grp", "cap", "neg", "look"} -> NodeNamesElided(n.kid)
+    [] OTHER -> FALSE
+NamesElided(g) == \E i \in 1..Len(g.prods) : NodeNamesElided(g.prods[i].body)
 ElisionIndependent ==
-  (done /\ ~HasIndexFields(G)) => \A k \in 1..Len(G.ks) : LET a == Outcome(G, Toks, G.ks[k])  b == Outcome(G, Project(Toks), G.ks[k]) IN
+  (done /\ ~HasIndexFields(G) /\ ~NamesElided(G)) => \A k \in 1..Len(G.ks) : LET a == Outcome(G, Toks, G.ks[k])  b == Outcome(G, Project(Toks), G.ks[k]) IN
                                    (a # "bug" /\ b # "bug") => a = b
 
 \* C02: no write of an abandoned attempt targets a struct value that survives it
